@@ -31,7 +31,7 @@ func init() {
 		RealParts:  []string{"Network.LoadSensors / ActivateSteps / ForwardSteps / RecursiveSteps, Network.FastNetworkSolver translation, FastModularNetworkSolver ForwardSteps / RecursiveSteps / Relax", "scalar activation functions as trusted primitives of the reference"},
 		StubParts:  []string{"fitness assignment"},
 		Assumes:    []string{"tolerance 1e-9 for summation order; input vectors that put a step / sign neuron within 1e-9 of its discontinuity are skipped and counted", "networks with a neuron that no sensor reaches, or with a cycle, are outside the property and skipped (counted)"},
-		ProbeNames: []string{"probe.net.hidden", "probe.net.bias_link_matters", "probe.net.depth>=3", "probe.net.skip_connection", "probe.net.multi_output", "probe.net.nonsigmoid_activation", "probe.reused_after_flush", "probe.net.hand_built_permuted", "probe.net.deep_chain", "skipped.cyclic", "skipped.unreachable_neuron"},
+		ProbeNames: []string{"probe.net.hidden", "probe.net.bias_link_matters", "probe.net.depth>=3", "probe.net.skip_connection", "probe.net.multi_output", "probe.net.nonsigmoid_activation", "probe.reused_after_flush", "probe.reused_without_flush", "probe.net.hand_built_permuted", "probe.net.deep_chain", "probe.net.parallel_links", "skipped.cyclic", "skipped.unreachable_neuron"},
 	})
 	Register(&Scenario{
 		Prop: "C13", Run: scenarioC13, QuickRuns: 30000, ThoroughRuns: 750000, Level: "exploration",
@@ -305,6 +305,37 @@ func scenarioC12(c *RunCtx) {
 	c.Sample = w.Describe()
 	c.Op("world: %s", w.Describe())
 	genomes = append(genomes, BuildGenome(t, GenomeSpec{AllowDisabled: true, MaxHidden: 5, ActSwarm: true, FeedForwardOnly: true}))
+	if t.Chance("parallelLinks", 1, 6) {
+		// two genes may join the same ordered node pair when their recurrence flags differ; the flag is a label, the
+		// network stays acyclic and both links carry signal
+		g := BuildGenome(t, GenomeSpec{AllowDisabled: true, MaxHidden: 4, ActSwarm: true, FeedForwardOnly: true})
+		maxInn := int64(0)
+		for _, gn := range g.Genes {
+			if gn.InnovationNum > maxInn {
+				maxInn = gn.InnovationNum
+			}
+		}
+		n := len(g.Genes)
+		for k := t.Range("parallelLinks.n", 1, 2); k > 0; k-- {
+			src := g.Genes[t.Draw("parallelLinks.src", n)]
+			dup := false
+			for _, gn := range g.Genes {
+				if gn != src && gn.Link.InNode == src.Link.InNode && gn.Link.OutNode == src.Link.OutNode {
+					dup = true
+				}
+			}
+			if dup {
+				continue
+			}
+			maxInn++
+			w := math.Round((t.Float("parallelLinks.w")*4-2)*1000) / 1000
+			ng := genetics.NewGene(w, src.Link.InNode, src.Link.OutNode, true, maxInn, w)
+			ng.Link.InNode, ng.Link.OutNode, ng.Link.IsRecurrent, ng.Link.ConnectionWeight, ng.IsEnabled = src.Link.InNode, src.Link.OutNode, true, w, true
+			g.Genes = append(g.Genes, ng)
+		}
+		genomes = append(genomes, g)
+		c.Count("probe.net.parallel_links")
+	}
 	if t.Chance("deepChain", 1, 12) {
 		genomes = append(genomes, BuildDeepChain(t))
 		c.Count("probe.net.deep_chain")
@@ -549,8 +580,14 @@ func scenarioC12(c *RunCtx) {
 			}
 			var gotStd, gotFast []float64
 			var errStd, errFast error
+			// between two evaluations the instances are flushed - or, in a share of the cases, not: the outputs of a
+			// feed-forward network after a load and enough propagation are a function of the loaded vector alone
+			noFlush := v > 0 && t.Chance("kept.noFlush", 1, 3)
+			if noFlush {
+				c.Count("probe.reused_without_flush")
+			}
 			c.Lib("kept instances", func() {
-				if v > 0 {
+				if v > 0 && !noFlush {
 					if _, errStd = keptStd.Flush(); errStd != nil {
 						return
 					}
